@@ -375,10 +375,11 @@ pub fn eval_c10(sc: &Scenario, h: &History, _signed: &Signeds, out: &mut Outcome
                     let ok_l = w_ledger.get(idx).map_or(false, |a| a == acct);
                     let ok_b = w_bytes.get(idx).map_or(false, |a| a == acct);
                     // a reward account is script-locked iff its header says script credential (bit 4)
-                    if (ok_l || ok_b) && acct.first().map_or(false, |h| h & 0x10 == 0) {
+                    if ok_l && acct.first().map_or(false, |h| h & 0x10 == 0) {
                         wrong(out, "reward_pointer_to_key_account", "which is a key account".into());
                     }
-                    if !ok_l && !ok_b {
+                    let _ = ok_b;
+                    if !ok_l {
                         let emitted_pos = wdrs.iter().position(|x| &x.0 == acct);
                         wrong(out, "reward_pointer_not_in_account_order", format!("but the account ranks {:?} in ledger order and {:?} in byte order (emitted position {:?})", w_ledger.iter().position(|a| a == acct), w_bytes.iter().position(|a| a == acct), emitted_pos));
                     }
@@ -393,10 +394,10 @@ pub fn eval_c10(sc: &Scenario, h: &History, _signed: &Signeds, out: &mut Outcome
                         let ok_l = v_ledger.get(idx).map_or(false, |x| x.0 == t && x.1 == hh);
                         let ok_b = v_bytes.get(idx).map_or(false, |x| x.0 == t && x.1 == hh);
                         let _ = voter_key;
-                        if (ok_l || ok_b) && !(t == 1 || t == 3) {
+                        if ok_l && !(t == 1 || t == 3) {
                             wrong(out, "vote_pointer_to_key_voter", "which is not a script voter".into());
                         }
-                        if !ok_l && !ok_b {
+                        if !ok_l {
                             wrong(out, "vote_pointer_not_in_voter_order", format!("but the voter ranks {:?} in ledger order and {:?} in byte order", v_ledger.iter().position(|x| x.0 == t && x.1 == hh), v_bytes.iter().position(|x| x.0 == t && x.1 == hh)));
                         }
                     }
@@ -1077,7 +1078,7 @@ pub const C10: BuilderProp = BuilderProp {
     runs_quick: 60_000,
     runs_thorough: 3_000_000,
     text: "one run = one seeded Plutus wallet session in which every attached redeemer carries a unique integer payload and insertion orders are seeded permutations (F7) — non-trivial = a built transaction whose every redeemer pointer was resolved against the emitted body under the ledger's pointer rules and compared with the item the history attached it to; distinct = distinct state signature",
-    extra_assumptions: &["reward accounts and voters: a pointer is reported only if wrong under the ledger's derived order AND under raw byte order"],
+    extra_assumptions: &["reward accounts and voters are ranked in the ledger's derived order (network, then script credential before key credential, then hash; voters: committee, DRep, pool)"],
 };
 pub const C18: BuilderProp = BuilderProp {
     id: "C18",
